@@ -7,6 +7,7 @@ import (
 	"fmt"
 	"io"
 	"net"
+	"os"
 	"time"
 
 	_ "mosn.io/mosn/pkg/filter/network/connectionmanager"
@@ -14,6 +15,7 @@ import (
 	_ "mosn.io/mosn/pkg/network"
 	_ "mosn.io/mosn/pkg/router"
 	_ "mosn.io/mosn/pkg/stream/xprotocol"
+	"mosn.io/mosn/pkg/types"
 	_ "mosn.io/mosn/pkg/upstream/cluster"
 	"mosn.io/mosn/test/util"
 	testmosn "mosn.io/mosn/test/util/mosn"
@@ -112,8 +114,36 @@ func probe(c net.Conn, id uint32) error {
 	return nil
 }
 
+// isolatePaths points every file-system rendezvous of MOSN (hot-upgrade domain sockets, pid file, default log and
+// conf directories — by default under /home/admin/mosn, shared by every MOSN on the machine) to a private directory:
+// otherwise a second MOSN started at the same time believes it is the new generation of a hot upgrade.
+func isolatePaths() {
+	wd, err := os.Getwd()
+	if err != nil {
+		wd = os.TempDir()
+	}
+	dir, err := os.MkdirTemp(wd, "mosn-c08-")
+	if err != nil {
+		panic(err)
+	}
+	sep := string(os.PathSeparator)
+	types.MosnBasePath = dir
+	types.MosnLogBasePath = dir + sep + "logs"
+	types.MosnLogDefaultPath = types.MosnLogBasePath + sep + "mosn.log"
+	types.MosnLogProxyPath = types.MosnLogBasePath + sep + "proxy.log"
+	types.MosnPidDefaultFileName = types.MosnLogBasePath + sep + "mosn.pid"
+	types.MosnConfigPath = dir + sep + "conf"
+	types.MosnUDSPath = types.MosnConfigPath
+	types.ReconfigureDomainSocket = types.MosnUDSPath + sep + "reconfig.sock"
+	types.TransferConnDomainSocket = types.MosnUDSPath + sep + "conn.sock"
+	types.TransferStatsDomainSocket = types.MosnUDSPath + sep + "stats.sock"
+	types.TransferListenDomainSocket = types.MosnUDSPath + sep + "listen.sock"
+	types.TransferMosnconfigDomainSocket = types.MosnUDSPath + sep + "mosnconfig.sock"
+}
+
 func containRun(c *hx.Ctx) {
 	util.MeshLogLevel = "FATAL"
+	isolatePaths()
 	up := echoUpstream()
 	addr := freeAddr()
 	cfg := util.CreateXProtocolProxyMesh(addr, []string{up}, "bolt,boltv2,dubbo,dubbo-thrift,tars")
